@@ -436,3 +436,17 @@ func Replay(path string) (string, error, error) {
 	}
 	return rf.Property, fn(rf.Input), nil
 }
+
+// Prop turns a check into a plain rapid property (used with rapid.MakeFuzz for coverage-guided runs).
+func (ck *Check[I]) AsProp() func(*rapid.T) {
+	return func(rt *rapid.T) {
+		in := ck.Gen(rt)
+		if out := ck.Oracle(in); out.Err != nil {
+			b, _ := json.Marshal(in)
+			if len(b) > 4000 {
+				b = append(b[:4000], []byte("...")...)
+			}
+			rt.Fatalf("%v\ninput: %s", out.Err, b)
+		}
+	}
+}
